@@ -115,14 +115,25 @@ def body_c10(tier, seed, rep, only_prop=False, scale=1):
             rep.prop_fail.append(("C10: a timeline's scale domain / direction at export time is not what its own arguments give: " + ans, {"case": meta, "driver_line": line, "driver_answer": ans}))
 
 
+MORE_ZONES = ["Europe/London", "Europe/Berlin", "Asia/Tokyo", "America/Sao_Paulo", "Australia/Adelaide", "Asia/Kathmandu",
+              "America/St_Johns", "Africa/Casablanca", "Pacific/Apia", "America/Los_Angeles", "Asia/Tehran", "Pacific/Kiritimati"]
+
+
 def body_c18(tier, seed, rep, only_prop=False, scale=1):
+    global ZONES
+    if tier != "quick" and len(ZONES) == 5:
+        # thorough tier: more zones (southern-hemisphere DST, quarter-hour offsets, a zone that skipped a whole day, +14:00), those that
+        # the installed zone database knows; shard i of a sharded run probes with its own seed
+        ZONES = ZONES + [z for z in MORE_ZONES if os.path.exists(os.path.join("/usr/share/zoneinfo", z))]
+        rep.count("zones", len(ZONES))
+
     def probe(zone):
         env = dict(os.environ, TZ=zone, LABELLA_REPO=REPO)
         p = subprocess.run([PY, os.path.join(VERIF, "harness", "tz_probe.py"), str(seed + (7919 if scale > 1 else 0)), tier], capture_output=True, text=True, timeout=1700, env=env)
         if p.returncode != 0:
             raise Infra("tz_probe failed under TZ=%s: %s" % (zone, p.stderr[-600:]))
         return p.stdout.splitlines()
-    with ThreadPoolExecutor(max_workers=5) as ex:
+    with ThreadPoolExecutor(max_workers=6) as ex:
         outs = dict(zip(ZONES, ex.map(probe, ZONES)))
     base = outs["UTC"]
     for z in ZONES[1:]:
